@@ -221,6 +221,9 @@ def oracle_step(pid, tier, deep):
         return None
     r = rng(pid + ":oracle")
     t0 = time.time()
+    if deep and tier == "quick":
+        # deep search started from the quick tier: follow the thorough schedule, but only for a bounded time
+        common.set_oracle_cap(float(os.environ.get("VERIF_DEEP_S", "300")))
     try:
         o = mod.run("thorough" if deep else tier, r)
     except (Infra, subprocess.TimeoutExpired, KeyboardInterrupt, SystemExit):
@@ -230,6 +233,7 @@ def oracle_step(pid, tier, deep):
         return {"explored": 0, "violations": [], "crashed": f"{type(e).__name__}: {str(e)[:200]} | {' | '.join(tb[-4:])[:400]}",
                 "wall_s": round(time.time() - t0, 1)}
     o["wall_s"] = round(time.time() - t0, 1)
+    common.set_oracle_cap(None)
     return o
 
 
